@@ -232,7 +232,7 @@ def build(tier, seed):
     inner = max(at["C"], key=lambda c: len(adj[c]))
     hole = [c for c in sorted(at["C"], key=int) if c != inner]
     few = [["direct", "v5x4", None, 0], ["direct", "v5x4", None, 2], ["se", "v5x4", None, 2], ["wkt", "v5x4", None, 1],
-           ["tess", 5, 4, seed + 1, 40.0], ["direct", "v5x5", hole, 0], ["raster", [5, 4, 15, 0, 40], True], ["raster", [5, 4, 15, 0, 40], False]]
+           ["tess", 5, 4, seed + 1, 40.0], ["direct", "v5x5", hole, 0], ["raster", [5, 4, 15, 0, 40], True], ["raster", [5, 4, 15, 0, 40], False], ["direct", "lens", None, 3]]
     light = [["gm", 2, True], ["gm", 6, True], ["gm", 3, False], ["frame"], ["hold"], ["release"]]
     if tier == "quick":
         return [MeshHistories("parsers-depth3", few, 3),
